@@ -848,7 +848,37 @@ class _Loop(Flow):
             if d is False:
                 return self.sym(e.orelse, st)
             return ('top', norm(e))
+        if self.is_predicate(e):
+            # a comparison / negation used as a value: its truth value when the state decides it
+            d = self.decide(e, st)
+            if d is not None:
+                return ('bool', d)
         return ('top', norm(e))
+
+    @staticmethod
+    def is_predicate(e):
+        """expressions that always evaluate to a bool and whose outcome on_test can relate to the stream state:
+        comparisons (without calls other than len) and negations of them / of names"""
+        while isinstance(e, ast.UnaryOp) and isinstance(e.op, ast.Not):
+            e = e.operand
+            if isinstance(e, ast.Name):
+                return True
+        if not isinstance(e, ast.Compare):
+            return False
+        return not any(
+            isinstance(x, (ast.NamedExpr, ast.Await, ast.Yield, ast.YieldFrom, ast.Lambda))
+            or (isinstance(x, ast.Call) and not (isinstance(x.func, ast.Name) and x.func.id == 'len'))
+            for x in ast.walk(e)
+        )
+
+    def split(self, test, st):
+        """(states where the predicate is true, states where it is false), each refined by what the outcome tells
+        about the stream state (same refinement as the branch of an  if  on that predicate)"""
+        if isinstance(test, ast.UnaryOp) and isinstance(test.op, ast.Not):
+            t, f = self.split(test.operand, st)
+            return f, t
+        t, f = self.on_test(test, st)
+        return tuple(t), tuple(f)
 
     def decide(self, test, st):
         if isinstance(test, ast.UnaryOp) and isinstance(test.op, ast.Not):
@@ -1006,6 +1036,18 @@ class _Loop(Flow):
     def on_stmt(self, s, st):
         if isinstance(s, (ast.Assign, ast.AnnAssign)) and s.value is not None:
             tg = s.targets if isinstance(s, ast.Assign) else [s.target]
+            if all(isinstance(t, ast.Name) for t in tg) and self.is_predicate(s.value):
+                # flag = <comparison>: the local caches the outcome of the test; both outcomes are followed, each
+                # with the refinement the test gives (so that  `if flag:` / `a if flag else b`  later is the same as
+                # testing the comparison at the place of the assignment)
+                t, f = self.split(s.value, st)
+                res = []
+                for sub, truth in ((t, True), (f, False)):
+                    for x in sub:
+                        for t0 in tg:
+                            x = self.assign(t0, ('bool', truth), s, x)
+                        res.append(x)
+                return tuple(res)
             if self.is_slot_call(s.value):
                 val = ('slotres',)
                 st = _unflag(st, 'pending')
@@ -2500,8 +2542,53 @@ def check(ctx):
 
 _F, _C, _L, _S = 'pl/farm.py', 'db/shelve/comms.py', 'pl/logger/__init__.py', 'security.py'
 _W_LEN = "length = ( self.__buf['actual'] if self.__buf['expected'] is None else self.__buf['expected'] )"
+# farm loop restructured: while True / break under the needed-amount test, the header/body state cached in a boolean
+# local, the needed amount a conditional expression on that local, header branch ends in continue
+_F_OLD = (
+    "length = self.__blen if self.__len is None else self.__len\n"
+    "        while length <= len(self.__buf):\n"
+    "            if self.__len is None:\n"
+    "                self.__len = struct.unpack('>I', self.__buf[:length])[0]\n"
+    "                self.__buf = self.__buf[length:]\n"
+    "            else:\n"
+    "                msg = dawgie.pl.message.loads(self.__buf[:length])\n"
+    "                self.__buf = self.__buf[length:]\n"
+    "                self.__len = None\n"
+    "                self._process(msg)\n"
+    "                pass\n"
+    "\n"
+    "            length = self.__blen if self.__len is None else self.__len\n"
+    "            pass\n"
+)
+
+
+def _f_new(pre='', flag='want_header = self.__len is None', amount='self.__blen if want_header else self.__len', brk='len(self.__buf) < length', test='want_header'):
+    return (
+        f"{pre}while True:\n"
+        f"            {flag}\n"
+        f"            length = {amount}\n"
+        f"            if {brk}:\n"
+        "                break\n"
+        f"            if {test}:\n"
+        "                self.__len = struct.unpack('>I', self.__buf[:length])[0]\n"
+        "                self.__buf = self.__buf[length:]\n"
+        "                continue\n"
+        "            msg = dawgie.pl.message.loads(self.__buf[:length])\n"
+        "            self.__buf = self.__buf[length:]\n"
+        "            self.__len = None\n"
+        "            self._process(msg)\n"
+    )
+
 
 VARIANTS = [
+    V('farm: while True, state cached in a boolean local, conditional amount', 'N', _F, 'Hand.dataReceived', _F_OLD, _f_new(), None),
+    V('farm: cached state through a negated flag', 'N', _F, 'Hand.dataReceived', _F_OLD,
+      _f_new(flag='have_len = not (self.__len is None)', amount='self.__len if have_len else self.__blen', test='not have_len'), None),
+    V('farm: cached state taken before the loop (stale)', 'B', _F, 'Hand.dataReceived', _F_OLD,
+      _f_new(pre='want_header = self.__len is None\n        ', flag='pass'), 'R-C14-1'),
+    V('farm: cached state selects the wrong amount', 'B', _F, 'Hand.dataReceived', _F_OLD,
+      _f_new(amount='self.__len if want_header else self.__blen'), 'R-C14-1'),
+    V('farm: break leaves an exactly complete unit behind', 'B', _F, 'Hand.dataReceived', _F_OLD, _f_new(brk='len(self.__buf) <= length'), 'R-C14-1'),
     V('handshake loop slices a local copy of the buffer', 'B', 'security.py', 'TwistedWrapper.process', 'self.__buf += data\n\n        while self.__len <= len(self.__buf):\n            data = self.__buf[: self.__len]\n            self.__buf = self.__buf[self.__len :]', 'buf = self.__buf = self.__buf + data\n\n        while self.__len <= len(buf):\n            data, buf = buf[: self.__len], buf[self.__len :]\n            self.__buf = buf', 'R-C14-1'),
     # ---- R-C14-1
     V('farm: < for <=', 'B', _F, 'Hand.dataReceived', 'while length <= len(self.__buf):', 'while length < len(self.__buf):', 'R-C14-1'),
